@@ -121,6 +121,11 @@ func (tb *LTable) Remove(pos int) LValue {
 		return LNil
 	}
 	larray := len(tb.array)
+	// slots cleared by direct assignment (t[#t] = nil) are not list elements
+	for larray > 0 && tb.array[larray-1] == LNil {
+		larray--
+	}
+	tb.array = tb.array[:larray]
 	if larray == 0 {
 		return LNil
 	}
